@@ -31,7 +31,7 @@ T = {
          "Random histories of 10-40 steps on a real connection (both roles, counters starting at 1, 2, 10^6 or loaded from a pre-populated journal): every kind of send in every state the API reaches, interleaved with inbound frames that cause sends; after each step every new tapped frame carries the next number, the journal returns exactly the tapped bytes under that number, stored next-out == last+1 == live counter, and a refused send changes nothing.",
          "inbound ResendRequest servicing (C06) and transport faults (C07/C09) are excluded from these histories"),
  "C06": ("exploration", "independent chain walk over the tapped reply to a ResendRequest + side-effect comparison (counters, journal rows, state)", "§4 C06",
-         "Outbound journals built through the real send path: every sequence of length <= 3 (quick) / <= 4 (thorough) over 7 slot kinds plus random journals, optionally after an earlier serviced request, x (BeginSeqNo, EndSeqNo) grids incl. invalid ranges x {ACTIVE, RESENDREQ_AWAITING}; the reply must be a contiguous chain from BeginSeqNo to min(End,last): retransmissions only of journaled accepted application messages with PossDupFlag/OrigSendingTime and identical body, everything else gap-filled, nothing beyond the range, no side effects outside it.",
+         "Outbound journals built through the real send path: every sequence of length <= 3 (quick) / <= 4 (thorough) over 8 slot kinds (incl. application types that share a first character with session types) plus random journals, optionally after an earlier serviced request, x (BeginSeqNo, EndSeqNo) grids incl. invalid ranges x {ACTIVE, RESENDREQ_AWAITING}; the reply must be a contiguous chain from BeginSeqNo to min(End,last): retransmissions only of journaled accepted application messages with PossDupFlag/OrigSendingTime and identical body, everything else gap-filled, nothing beyond the range, no side effects outside it.",
          "for invalid requests only the side-effect clause is judged; OrigSendingTime of a retransmitted earlier copy may be either the copy's 122 or its 52"),
  "C08": ("fault_enumeration", "fault enumeration: the writer dies at EVERY SQL-statement / commit boundary of generated operation sequences (in-process death for all, forked children dying by os._exit for a subset, both must agree); the re-opened file is compared with a dict model", "§4 C08",
          "Generated operation sequences on a file-backed Journaler (create/load of up to 3 sessions incl. mirror CompIDs, persist in/out fresh/duplicate/out-of-order/binary, set_seq_num in all argument modes, reset): a dry run numbers every boundary (before/after each execute and commit, constructor included); the writer is killed at every one of them and a fresh Journaler on the file must report exactly the model state before or after the operation in flight (counters on both load paths, all rows of both directions byte for byte); normal endings (del, interpreter exit in a real subprocess, killed after the last operation) must give the final state.",
